@@ -9,6 +9,8 @@ import YaraModel.Lemmas.ReAtomPos
 import YaraModel.Lemmas.ReAtomEntry
 import YaraModel.Lemmas.ReScan
 import YaraModel.Lemmas.ReSplit
+import YaraModel.Lemmas.ReCompleteHex
+import YaraModel.Lemmas.ReScanComplete
 namespace YaraModel.C02
 open YaraModel.Re
 
@@ -184,9 +186,9 @@ open YaraModel.ReVm YaraModel.ReEmit in
     specification admits at that position.  The proof goes through an abstract machine with the three states of a
     REPEAT_ANY fiber (arriving / waiting for a character / just consumed) and a continuation language per machine state; it
     is the instance for hex ASTs of the theorem for ALL well-formed expressions (Thm/C03 `vm_sound`).
-    Backward code: `vm_sound_backward` below.  Separate statements, not yet proved: the fast matcher `yr_re_fast_exec`,
-    runs entering the code at an atom's instruction, and the converse inclusion (completeness: every admissible length
-    is reported in exhaustive mode). -/
+    Backward code: `vm_sound_backward` below.  Separate statements: runs entering the code at an atom's instruction
+    (`verify_from_atom_sound`), the converse inclusion (`vm_complete_hex_partial`: every admissible length is reported in
+    exhaustive mode); not proved: the fast matcher `yr_re_fast_exec`. -/
 theorem vm_sound (r : Re) (hx : HexAst r) (hsz : (emit false r 0).1.length < 32000) (buf : Bytes) (start : Nat) (hst : start ≤ buf.size)
     (fl : VmFlags) (hw : fl.wide = false) (hb : fl.backwards = false) (hsc : fl.scan = false) (fuel : Nat) (m : Int) (c : List Nat)
     (h : exec { code := (emitCode false r).toArray, entry := 0, buf := buf, start := start, fl := fl, syncFuel := fuel } = .done m c) :
@@ -214,6 +216,69 @@ open YaraModel.ReVm YaraModel.ReEmit in
 /-- instance: `41 ( 42 | ?3 44 ) [1-2] ~45` on `41 13 44 00 00 46`: the VM run on the emitted code reports lengths 6 and 5 -/
 example : exec { code := (emitCode false (.cat (.lit 0x41) (.cat (.alt (.lit 0x42) (.cat (.masked 0x03 0x0F) (.lit 0x44))) (.cat (.rangeAny 1 2 false) (.notLit 0x45))))).toArray, entry := 0, buf := #[0x41, 0x13, 0x44, 0x00, 0x00, 0x46], start := 0, fl := { exhaustive := true, dotall := true } } = .done 6 [5, 6] := by decide
 
+open YaraModel.ReVm YaraModel.ReEmit in
+/-- `vm_complete_hex_partial`: VM COMPLETENESS for hex patterns, forward code — the converse of `vm_sound`.  `HexG r`: the
+    hex ASTs in which the FIRST branch of every alternative begins with a byte-like token (byte, `??`, nibble mask, `~`) or
+    a jump that may skip a byte, recursively through nested alternatives — every AST the hex grammar produces
+    (`tokens : token | token token | token token_sequence token`: a branch begins and ends with a byte or a nested alternative).
+    For ALL such patterns, buffers, start positions o = `start` and every match [o, o + L) of the pattern
+    (`Re.Matches .. r start (start + L)`) with L within the scan window (RE_SCAN_LIMIT: L ≤ 1024): the exhaustive forward run of
+    the executable model of `yr_re_exec` (Model/ReVm.lean `exec`: the fiber list with its de-duplication, `_yr_re_fiber_sync`
+    with its executed-split set, the per-position pass) on `emitCode false r` reports the length L.
+    How errors are excluded: the hypothesis `exec .. = .done m c` — the run returned a result, i.e. NO error path was taken:
+    the fiber list never exceeded the limit (the model's `outOfFuel` outcome = ERROR_TOO_MANY_RE_FIBERS and the fuel bounds
+    of sync / pass / loop); no stack-depth error exists for hex code (no REPEAT_START).  Further hypotheses: code below 32000
+    bytes (int16 offsets), at most 256 alternatives (`(emit false r 0).2` = number of split ids; yara refuses more than
+    RE_MAX_SPLIT_ID = 128), byte mode, not scan mode, RE_FLAGS_EXHAUSTIVE.
+    Invariant of the proof (Lemmas/ReComplete.lean, ReCompleteHex.lean): `AccN` — from a stopped fiber there is a path of
+    consuming steps to MATCH through fibers that every later top-level sync call is bound to produce; the pass keeps the
+    successors of every accepted fiber (de-duplication only drops EQUAL fibers), so the path survives every position.  The
+    executed-split set never kills a fiber of the path: split ids are numbered in emission order, hex code only branches
+    forwards, and the first branch of an alternative stops inside its own code (`sync_fresh`).
+    `_partial`: statement (a) in full asks for every `HexAst`; NOT covered are alternatives whose first branch begins with a
+    degenerate jump `[0-0]` (then the second branch may be killed at a split that the first one already executed — the
+    fibers are duplicates, but the proof of that is the general visited-set argument); the grammar never produces them.
+    Also not covered: matches longer than the 1024-byte window (not reported by design), wide mode, non-exhaustive mode
+    (which length the forward verification run reports), runs entering at an atom's instruction. -/
+theorem vm_complete_hex_partial (r : Re) (hg : HexG r) (hsz : (emit false r 0).1.length < 32000) (hid : (emit false r 0).2 ≤ 256)
+    (buf : Bytes) (start : Nat) (hst : start ≤ buf.size)
+    (fl : VmFlags) (hw : fl.wide = false) (hb : fl.backwards = false) (hsc : fl.scan = false) (hx : fl.exhaustive = true)
+    (fuel : Nat) (m : Int) (c : List Nat)
+    (h : exec { code := (emitCode false r).toArray, entry := 0, buf := buf, start := start, fl := fl, syncFuel := fuel } = .done m c)
+    (L : Nat) (hL : L ≤ 1024) (hm : Re.Matches (specFlags fl) buf r start (start + L)) : L ∈ c :=
+  vm_complete_fwd r hg hsz hid buf start hst fl hw hb hsc hx fuel m c h L hL hm
+
+open YaraModel.ReVm YaraModel.ReEmit in
+/-- `vm_complete_hex_backward_partial`: the mirrored statement for the BACKWARD code (the bytes before the atom): run with
+    RE_FLAGS_BACKWARDS from `start`, every match [start - L, start) of the pattern with L ≤ 1024 has its length reported by the
+    exhaustive run on `emitCode true r` that returns without error.  `HexG (rev r)`: the mirrored pattern has the grammar's
+    shape (the first branch of every alternative of `r` ENDS with a byte-like token).  Same proof through the
+    direction-generic path lemma `acc_hex` (the backward code of `r` is the forward code of `rev r`). -/
+theorem vm_complete_hex_backward_partial (r : Re) (hg : HexG (rev r)) (hsz : (emit true r 0).1.length < 32000)
+    (hid : (emit true r 0).2 ≤ 256) (buf : Bytes) (start : Nat) (hst : start ≤ buf.size)
+    (fl : VmFlags) (hw : fl.wide = false) (hb : fl.backwards = true) (hsc : fl.scan = false) (hx : fl.exhaustive = true)
+    (fuel : Nat) (m : Int) (c : List Nat)
+    (h : exec { code := (emitCode true r).toArray, entry := 0, buf := buf, start := start, fl := fl, syncFuel := fuel } = .done m c)
+    (L : Nat) (hL : L ≤ 1024) (hLs : L ≤ start) (hm : Re.Matches (specFlags fl) buf r (start - L) start) : L ∈ c :=
+  vm_complete_bwd r hg hsz hid buf start hst fl hw hb hsc hx fuel m c h L hL hLs hm
+
+open YaraModel.ReEmit in
+/-- instance: `41 ( 42 | ?3 44 ) [1-2] ~45` has the grammar's shape, and so has its mirror image -/
+example : HexG (.cat (.lit 0x41) (.cat (.alt (.lit 0x42) (.cat (.masked 0x03 0x0F) (.lit 0x44))) (.cat (.rangeAny 1 2 false) (.notLit 0x45)))) ∧
+    HexG (rev (.cat (.lit 0x41) (.cat (.alt (.lit 0x42) (.cat (.masked 0x03 0x0F) (.lit 0x44))) (.cat (.rangeAny 1 2 false) (.notLit 0x45))))) :=
+  ⟨.seq (.byte _) (.seq (.alt (.byte _) (.seq (.mask _ _) (.byte _)) (.byte _)) (.seq (.jump 1 2 (by decide) (by decide)) (.notByte _))),
+   .seq (.seq (.seq (.notByte _) (.jump 1 2 (by decide) (by decide))) (.alt (.byte _) (.seq (.byte _) (.mask _ _)) (.byte _))) (.byte _)⟩
+
+open YaraModel.ReVm YaraModel.ReEmit in
+/-- the hypotheses of `vm_complete_hex_partial` are satisfiable together, non-trivially: `41 ( 42 | ?3 44 ) [1-2] ~45` on
+    `41 13 44 00 00 46` — the run returns `.done 6 [5, 6]` (no error), the pattern matches [0, 5) through the second branch
+    of the alternative and a one-byte jump, and the theorem yields 5 ∈ [5, 6] -/
+example : 5 ∈ [5, 6] :=
+  vm_complete_hex_partial (.cat (.lit 0x41) (.cat (.alt (.lit 0x42) (.cat (.masked 0x03 0x0F) (.lit 0x44))) (.cat (.rangeAny 1 2 false) (.notLit 0x45))))
+    (.seq (.byte _) (.seq (.alt (.byte _) (.seq (.mask _ _) (.byte _)) (.byte _)) (.seq (.jump 1 2 (by decide) (by decide)) (.notByte _))))
+    (by decide) (by decide) #[0x41, 0x13, 0x44, 0x00, 0x00, 0x46] 0 (by decide) { exhaustive := true, dotall := true } rfl rfl rfl rfl
+    100000 6 [5, 6] (by decide) 5 (by decide) ((Re.ends_iff_Matches _ _ _ _ _).1 (by decide))
+
 open YaraModel.ReAtoms YaraModel.ReEmit in
 /-- `reAtoms_cover`: the atoms extracted for a hex string cover its matches, at the positions verification starts from.
     `atomsOf q m r` is the model of what `yr_ac_add_string` receives for the string (walk with the sliding window, trim,
@@ -225,8 +290,8 @@ open YaraModel.ReAtoms YaraModel.ReEmit in
         entry point `holePos c 0` of `verify_from_atom_sound`, and the backward one (`bwdRef`) is `bwdPos y c 0` behind the
         forward code and its MATCH;
       * the part of the pattern before `y` matches buf[p, s), `y` matches at s, and the rest matches up to q'
-    (or the string has the zero-length atom).  With VM completeness (not yet proved) this yields: every match is verified
-    from its atom. -/
+    (or the string has the zero-length atom).  With VM completeness from the atom (`verify_from_atom_complete_partial`) this
+    yields: every match is verified from its atom (`hex_scan_complete_partial`). -/
 theorem reAtoms_cover (q : Atom → Int) (m : Mods) (fl : Flags) (buf : Bytes) (hw1 : fl.wide = true → m.wide = true)
     (hw0 : fl.wide = false → (m.wide = false ∨ m.ascii = true)) (hn : m.nocase = fl.nocase) (r : Re) (hh : HexAst r) (hmk : MaskOK r)
     (p q' : Nat) (hm : Re.Matches fl buf r p q') :
@@ -277,9 +342,8 @@ open YaraModel.ReVm YaraModel.ReEmit YaraModel.ReScan in
     the pattern (`CandOK`: what `reAtoms_cover` shows the atoms model records, compared with the real entries by the checks)
     or are the zero-length atom — no hypothesis on HOW the automaton found them: every (offset, length) in the resulting
     match list is a match of the pattern, buf[offset, offset+length).
-    Not yet proved: completeness of the chain (every match is in the list): `reAtoms_cover` supplies the atom occurrence and
-    the split of the match; what is missing is VM completeness (the runs from the atom report lb and lf) and the automaton
-    contract for masked atoms; the fast matcher `yr_re_fast_exec`; chains of more than two pieces. -/
+    The converse (every match has its offset in the list, given the automaton contract) is `hex_scan_complete_partial`.
+    Not proved: the automaton contract itself; the fast matcher `yr_re_fast_exec`; chains of more than two pieces. -/
 theorem hex_scan_sound (r : Re) (hh : HexAst r) (hszf : (emit false r 0).1.length < 32000) (hszb : (emit true r 0).1.length < 32000)
     (buf : Bytes) (fl : VmFlags) (fuel : Nat) (cands : List Cand) (hc : ∀ c ∈ cands, CandOK r c ∧ c.off ≤ buf.size) :
     ∀ x ∈ scanHex r buf fl fuel cands, Re.Matches (specFlagsG fl) buf r x.1 (x.1 + x.2) :=
@@ -290,6 +354,109 @@ open YaraModel.ReScan in
     backward code `43 ?? 41`) is reported at offsets 1 and 4: the match list is [(1,3), (4,3)] -/
 example : scanHex (.cat (.lit 0x41) (.cat .any (.lit 0x43))) #[0x78, 0x41, 0x62, 0x43, 0x41, 0x2d, 0x43] {} 100000
     [⟨0, some 5, 1⟩, ⟨0, some 5, 4⟩] = [(1, 3), (4, 3)] := by decide
+
+open YaraModel.ReVm YaraModel.ReEmit in
+/-- `verify_from_atom_complete_partial`: the converse of `verify_from_atom_sound` — the verification step finds every match
+    that runs through the atom.  Let `x` be a byte / masked byte / `??` node of a grammar-shaped hex pattern `c.fill x`
+    (`HexG` of the pattern and of its mirror image), `o` any offset; if the part before `x` matches buf[o - lb, o), `x` matches
+    at `o` and the rest matches up to o + lf (lb, lf ≤ 1024: the scan window), then
+      * the FORWARD run entered at the node's instruction (`holePos c 0`) that ends without error has a result ≥ 0 —
+        in ANY mode (the scanner runs it non-exhaustively) — and reports lf when it is exhaustive;
+      * the exhaustive BACKWARD run entered behind the node's backward instruction (`bwdPos x c 0`) reports lb.
+    `_partial`: `HexG` instead of every `HexAst` (see `vm_complete_hex_partial`), byte mode. -/
+theorem verify_from_atom_complete_partial (c : Ctx) (x : Re) (hx : AtomLeaf x) (hg : HexG (c.fill x)) (hgr : HexG (rev (c.fill x)))
+    (hszf : (emit false (c.fill x) 0).1.length < 32000) (hidf : (emit false (c.fill x) 0).2 ≤ 256)
+    (hszb : (emit true (c.fill x) 0).1.length < 32000) (hidb : (emit true (c.fill x) 0).2 ≤ 256)
+    (buf : Bytes) (o : Nat) (ho : o ≤ buf.size) (flf flb : VmFlags)
+    (hf0 : flf.wide = false) (hf1 : flf.backwards = false) (hf2 : flf.scan = false)
+    (hb0 : flb.wide = false) (hb1 : flb.backwards = true) (hb2 : flb.scan = false) (hb3 : flb.exhaustive = true)
+    (hsame : specFlags flf = specFlags flb) (fuel1 fuel2 : Nat) (m1 m2 : Int) (c1 c2 : List Nat)
+    (hfw : exec { code := (emitCode false (c.fill x)).toArray, entry := holePos c 0, buf := buf, start := o, fl := flf, syncFuel := fuel1 } = .done m1 c1)
+    (hbw : exec { code := (emitCode true (c.fill x)).toArray, entry := bwdPos x c 0, buf := buf, start := o, fl := flb, syncFuel := fuel2 } = .done m2 c2)
+    (lb e1 lf : Nat) (hlb : lb ≤ 1024) (hlo : lb ≤ o) (hlf : lf ≤ 1024)
+    (hbef : c.Before (specFlags flf) buf x (o - lb) o) (hm : Re.Matches (specFlags flf) buf x o (o + e1))
+    (haf : c.After (specFlags flf) buf x (o + e1) (o + lf)) :
+    0 ≤ m1 ∧ (flf.exhaustive = true → lf ∈ c1) ∧ lb ∈ c2 := by
+  obtain ⟨k1, k2⟩ := vm_complete_from_atom_fwd c x hx hg hszf hidf buf o ho flf hf0 hf1 hf2 fuel1 m1 c1 hfw e1 lf hlf hm haf
+  rw [hsame] at hbef
+  exact ⟨k1, k2, (vm_complete_from_atom_bwd c x hx hgr hszb hidb buf o ho flb hb0 hb1 hb2 fuel2 m2 c2 hbw lb hlb hlo hbef).2 hb3⟩
+
+open YaraModel.ReVm YaraModel.ReEmit in
+/-- the hypotheses of `verify_from_atom_complete_partial` are satisfiable together: `10 41 ?? 43` over `x 10 A b C`, the atom
+    node `41` (forward entry 2, backward entry 5) at offset 2 — the non-exhaustive forward run returns `.done 3 []`, the
+    exhaustive backward run `.done 1 [1]`; the match [1, 5) runs through the node, and the theorem yields 0 ≤ 3 and 1 ∈ [1] -/
+example : (0 : Int) ≤ 3 ∧ (({} : VmFlags).exhaustive = true → 3 ∈ ([] : List Nat)) ∧ 1 ∈ [1] :=
+  verify_from_atom_complete_partial (.catR (.lit 0x10) (.catL .hole (.cat .any (.lit 0x43)))) (.lit 0x41) (.inl ⟨_, rfl⟩)
+    (.seq (.byte _) (.seq (.byte _) (.seq .wild (.byte _)))) (.seq (.seq (.seq (.byte _) .wild) (.byte _)) (.byte _))
+    (by decide) (by decide) (by decide) (by decide) #[0x78, 0x10, 0x41, 0x62, 0x43] 2 (by decide) {} { backwards := true, exhaustive := true }
+    rfl rfl rfl rfl rfl rfl rfl rfl 1000 1000 3 1 [] [1] (by decide) (by decide) 1 1 3 (by decide) (by decide) (by decide)
+    ⟨2, (Re.ends_iff_Matches _ _ _ _ _).1 (by decide), rfl⟩ ((Re.ends_iff_Matches _ _ _ _ _).1 (by decide))
+    ⟨3, rfl, (Re.ends_iff_Matches _ _ _ _ _).1 (by decide)⟩
+
+open YaraModel.ReVm YaraModel.ReEmit YaraModel.ReScan YaraModel.ReAtoms in
+/-- `hex_scan_complete_partial`: COMPLETENESS of the scan of one hex string in one block, the converse of `hex_scan_sound`,
+    over the model chain atoms → candidates → verification (non-exhaustive forward run from the atom node's instruction,
+    exhaustive backward run from behind it) → match callback → match list (Model/ReAtoms.lean, Model/ReScan.lean).
+    For ALL grammar-shaped hex patterns (`HexG r` and `HexG (rev r)`: the first branch of every alternative begins AND ends
+    with a byte-like token — what the hex grammar produces), every quality function of the atom heuristic, all buffers
+    and every match [p, q') of the pattern at most 1024 bytes long: the match list of the string contains an entry at
+    offset p.  (Which length is recorded for the offset is the one the non-exhaustive forward run prefers; it is a match
+    length by `hex_scan_sound`.)
+    Hypotheses, precisely:
+      * `hcands` — the AUTOMATON CONTRACT, not proved here: wherever the bytes of an atom handed to `yr_ac_add_string` occur
+        literally in the buffer, the candidate list holds the entry with the atom's code positions at that offset
+        (`fwdRef` / `bwdRef` of the atoms model, compared with the real automaton entries by the checks); for a string
+        without atoms (zero-length atom) a candidate at every offset;
+      * `hrun` — no verification run ends in an error (fiber limit / fuel: the model's `outOfFuel`);
+      * at most 256 alternatives, code below 32000 bytes, byte mode, modifiers consistent with the flags.
+    Proof chain: `reAtoms_cover` (an atom occurs literally inside the match, at the node where the pattern splits into
+    before / node / after) → `verifyOne_complete` (`vm_complete_from_atom_fwd`: the forward run from the node's instruction
+    ends with a result ≥ 0 — KILL_TAIL only drops fibers after a result is set; `vm_complete_from_atom_bwd`: the exhaustive
+    backward run reports the length of the part before the node) → `scanHex_has` (the match list only grows and holds every
+    offset handed to the callback).
+    `_partial`: the automaton (hcands) is a hypothesis; masked atoms rely on it as well; matches longer than 1024 bytes on
+    either side of the atom, the fast matcher `yr_re_fast_exec`, chained strings (pieces re-joined by `chain_sound`) and
+    wide / nocase-wide variants are not covered; alternatives with a branch beginning or ending with `[0-0]` neither. -/
+theorem hex_scan_complete_partial (q : Atom → Int) (m : Mods) (r : Re) (hg : HexG r) (hgr : HexG (rev r)) (hmk : MaskOK r)
+    (hszf : (emit false r 0).1.length < 32000) (hidf : (emit false r 0).2 ≤ 256)
+    (hszb : (emit true r 0).1.length < 32000) (hidb : (emit true r 0).2 ≤ 256)
+    (buf : Bytes) (fl : VmFlags) (hw : fl.wide = false) (hw0 : m.wide = false ∨ m.ascii = true) (hn : m.nocase = fl.nocase)
+    (fuel : Nat) (cands : List Cand)
+    (hcands : ∀ x ∈ atomsOf q m r, ∀ s, s ≤ buf.size → BytesAt buf x.1 s →
+      (x.1 = [] → (⟨0, none, s⟩ : Cand) ∈ cands) ∧
+      (∀ f b, fwdRef r x.2 = some f → bwdRef r x.2 = some (b + ReAtoms.clen false r + 1) → (⟨f, some b, s⟩ : Cand) ∈ cands))
+    (hrun : ∀ c ∈ cands,
+      (∃ m1 c1, exec { code := (emitCode false r).toArray, entry := c.fwd, buf := buf, start := c.off, fl := fwdFlags fl, syncFuel := fuel } = .done m1 c1) ∧
+      (∀ b, c.bwd = some b → ∃ m2 c2, exec { code := (emitCode true r).toArray, entry := b, buf := buf, start := c.off, fl := bwdFlags fl, syncFuel := fuel } = .done m2 c2))
+    (p q' : Nat) (hp : p ≤ buf.size) (hm : Re.Matches (specFlags fl) buf r p q') (hwin : q' - p ≤ 1024) :
+    ∃ len, (p, len) ∈ scanHex r buf fl fuel cands := by
+  have hb := Matches.bounds hm
+  obtain ⟨x, hx, s, h1, h2, h3, h4⟩ := reAtoms_cover q m (specFlags fl) buf (fun h => by cases h) (fun _ => hw0) hn r hg.hexAst hmk p q' hm
+  rcases h4 with h0 | ⟨c, y, hy, hfill, hf, hbr, hbef, e, hmy, haf⟩
+  · -- the zero-length atom: the candidate at p
+    have hc := (hcands x hx p (by omega) (by rw [h0]; trivial)).1 h0
+    obtain ⟨⟨m1, c1, hfw⟩, _⟩ := hrun _ hc
+    obtain ⟨_, k⟩ := verifyOne_complete_zero r hg hszf hidf buf fl hw fuel p (by omega) m1 c1 hfw q' hm hwin
+    exact scanHex_has r buf fl fuel cands _ hc _ k
+  · have hs : s ≤ buf.size := by omega
+    have hc := (hcands x hx s hs h3).2 _ _ hf hbr
+    obtain ⟨⟨m1, c1, hfw⟩, hbw⟩ := hrun _ hc
+    obtain ⟨m2, c2, hbw⟩ := hbw _ rfl
+    subst hfill
+    have b1 := before_le hbef
+    have b2 := Matches.bounds hmy
+    have b3 := after_le haf
+    obtain ⟨_, k⟩ := verifyOne_complete c y hy hg hgr hszf hidf hszb hidb buf fl hw fuel s hs m1 c1 hfw m2 c2 hbw p e q' hbef hmy haf
+      (by omega) (by omega)
+    exact scanHex_has (c.fill y) buf fl fuel cands _ hc _ k
+
+open YaraModel.ReScan in
+/-- instance (the example of `hex_scan_sound`): `41 ?? 43` over `x A b C A - C` with the candidates of the atom `41` at offsets
+    1 and 4 — both matches [1,4) and [4,7) have their offsets in the match list -/
+example : (1, 3) ∈ scanHex (.cat (.lit 0x41) (.cat .any (.lit 0x43))) #[0x78, 0x41, 0x62, 0x43, 0x41, 0x2d, 0x43] {} 100000
+    [⟨0, some 5, 1⟩, ⟨0, some 5, 4⟩] ∧
+    (4, 3) ∈ scanHex (.cat (.lit 0x41) (.cat .any (.lit 0x43))) #[0x78, 0x41, 0x62, 0x43, 0x41, 0x2d, 0x43] {} 100000
+    [⟨0, some 5, 1⟩, ⟨0, some 5, 4⟩] := by decide
 
 open YaraModel.ReSplit in
 /-- `chain_split_sem`: splitting a string at its chaining points preserves its language.  `chainSplit r` is the model of
